@@ -50,6 +50,16 @@ C02_QUAL_KEYS = ['instantiate_type']
 
 # ---- the signature instantiators over that contract: every instantiated argument / return type keeps its qualifiers
 LEN_OK = 'len(template_typenames) <= len(instantiations)'
+
+
+def plain_param(t, r):
+    """clause: if the type `t` (pre-state) is a plain name equal to a template parameter, `r` carries the corresponding argument"""
+    return ('implies(not isinstance(%(t)s, TemplatedType) and old(len(%(t)s.typename.instantiations) == 0 '
+            'and len(%(t)s.typename.namespaces) == 0 and "::" not in %(t)s.typename.name), '
+            'forall(0, len(template_typenames), lambda k: implies('
+            'template_typenames[k] == old(%(t)s.typename.name) '
+            'and forall(0, k, lambda i: template_typenames[i] != old(%(t)s.typename.name)), '
+            'same(%(r)s.typename, instantiations[k]))))' % dict(t=t, r=r))
 ARG_Q = ' and '.join('result[j].ctype.%s == old(args_list[j].ctype.%s)' % (q, q) for q in QUALS)
 ARG_Q_INV = ' and '.join('instantiated_args[j].ctype.%s == old(args_list[j].ctype.%s)' % (q, q) for q in QUALS)
 contract('instantiate_args_list',
@@ -59,11 +69,13 @@ contract('instantiate_args_list',
          ensures=['len(result) == len(args_list)',
                   'forall(0, len(args_list), lambda j: is_fresh(result[j]) and result[j].name == args_list[j].name '
                   'and result[j].default == args_list[j].default)',
-                  'forall(0, len(args_list), lambda j: is_fresh(result[j].ctype) and %s)' % ARG_Q],
+                  'forall(0, len(args_list), lambda j: is_fresh(result[j].ctype) and %s)' % ARG_Q,
+                  'forall(0, len(args_list), lambda j: %s)' % plain_param('args_list[j].ctype', 'result[j].ctype')],
          loops={0: {'inv': ['len(instantiated_args) == _i',
                             'forall(0, _i, lambda j: is_fresh(instantiated_args[j]) and instantiated_args[j].name == args_list[j].name '
                             'and instantiated_args[j].default == args_list[j].default)',
-                            'forall(0, _i, lambda j: is_fresh(instantiated_args[j].ctype) and %s)' % ARG_Q_INV],
+                            'forall(0, _i, lambda j: is_fresh(instantiated_args[j].ctype) and %s)' % ARG_Q_INV,
+                            'forall(0, _i, lambda j: %s)' % plain_param('args_list[j].ctype', 'instantiated_args[j].ctype')],
                     'modifies': ['fresh:name', 'fresh:ctype', 'fresh:default', 'fresh:parent'],
                     'types': {'instantiated_args': 'list[ref:Argument]'}}})
 RET_Q1 = ' and '.join('result.type1.%s == old(return_type.type1.%s)' % (q, q) for q in QUALS)
@@ -74,5 +86,6 @@ contract('instantiate_return_type',
          returns='ref:ReturnType', modifies=['alloc'], under=[LEN_OK], raises={'IndexError': True},
          ensures=['is_fresh(result)', "isinstance(result.type2, str) == isinstance(return_type.type2, str)",
                   "implies(isinstance(result.type2, str), result.type2 == '')", 'result.parent is None',
-                  'same_quals(result.type1, old(return_type.type1))', 'same_quals_or_absent(result.type2, old(return_type.type2))'])
+                  'same_quals(result.type1, old(return_type.type1))', 'same_quals_or_absent(result.type2, old(return_type.type2))',
+                  plain_param('return_type.type1', 'result.type1')])
 C02_QUAL_KEYS += ['instantiate_args_list', 'instantiate_return_type']
